@@ -629,7 +629,12 @@ def _builtin(s, ctx, func, g, tc, A, caller, ln, last):
         if ctx.sys_vars: ctx.add(t >= ctx.sys_vars[-1])
         ctx.sys_vars.append(t)
         ctx.events.append(('sysnow', ctx.tid, t))
-        return ok(Duration(t * NS))
+        # the wall clock has sub-second resolution: t whole seconds plus a fraction (what `.as_secs()` truncates away)
+        if ctx.real_time: return ok(Duration(t * NS))           # real-valued relaxation (TLRU scores): whole seconds only, as before
+        frac = ctx.fresh_int('unix_frac_ns', 0, NS - 1)
+        if not hasattr(ctx, 'sys_fracs'): ctx.sys_fracs = []
+        ctx.sys_fracs.append(frac)
+        return ok(Duration(t * NS + frac))
     if E('Instant::now'):
         t = ctx.fresh_time('now', 2 ** 70)
         if ctx.now_vars: ctx.add(t >= ctx.now_vars[-1])
@@ -754,6 +759,11 @@ def _builtin(s, ctx, func, g, tc, A, caller, ln, last):
     if tc and tc[1] in ('Into', 'From') and tc[2] in ('into', 'from') and tc[0] in INT_RANGE: return A[0]
     if tc and tc[1] in ('Fn', 'FnMut', 'FnOnce') and tc[2] in ('call', 'call_mut', 'call_once'):
         args2 = A[1].fields if isinstance(A[1], Agg) else []
+        if deref_all(A[0]) is None and '{closure@' in func and caller is not None:
+            # a capture-less closure is a zero-sized value that MIR may never materialise: its identity is in the call's type
+            mcl = re.search(r'\{closure@[^}]*\}', func)
+            clo = s.closure_by_site(caller, None, ln, mcl.group(0), [])
+            r = yield from s.call_callable(ctx, clo, list(args2)); return r
         r = yield from s.call_callable(ctx, A[0], list(args2)); return r
     if tc and tc[1] == 'Default' and tc[2] == 'default' and tc[0] in INT_RANGE: return 0
     # ------------------------------------------------------------ RNG
